@@ -3,6 +3,8 @@ query sets (engine M) decide each property.  Harness metadata (functions encoded
 stubs, what is outside the claim) lives in doc comments next to each harness."""
 
 PROPS = {
+    "C01": {"k": [("k_codec", ["c01_"])], "text": "", "note": ""},
+    "C02": {"k": [("k_codec", ["c02_"])], "text": "", "note": ""},
     "C14": {
         "k": [("k_crypto", ["c14_"])],
         "text": "Bounded model checking of the real memeq/memcmp: for every pair of byte arrays and every compared length 1..=8 (thorough 1..=16) the solver shows memeq <=> equality and memcmp == lexicographic order; a two-byte harness drives the branchless accumulator step through every (accumulator, difference) pair; len==0 panics as documented. Complete within the length bound, which is all the property needs because the loop body does not depend on the length.",
